@@ -2596,13 +2596,27 @@ impl KotoVm {
                         match value {
                             Tuple(new_entry) if new_entry.len() == 2 => {
                                 let key = ValueKey::try_from(new_entry[0].clone())?;
+                                // If the new key is already in use at another position then that
+                                // entry gets replaced by the new entry, so remove it first.
+                                let u_index = match map_data.get_index_of(&key) {
+                                    Some(existing_index) if existing_index != u_index => {
+                                        map_data.shift_remove_index(existing_index);
+                                        if existing_index < u_index {
+                                            u_index - 1
+                                        } else {
+                                            u_index
+                                        }
+                                    }
+                                    _ => u_index,
+                                };
+                                let last_index = map_data.len() - 1;
                                 // There's no API on IndexMap for replacing an entry,
                                 // so use swap_remove_index to remove the old entry,
                                 // then insert the new entry at the end of the map,
                                 // followed by swap_indices to swap the new entry back into position.
                                 map_data.swap_remove_index(u_index);
                                 map_data.insert(key, new_entry[1].clone());
-                                map_data.swap_indices(u_index, map_len - 1);
+                                map_data.swap_indices(u_index, last_index);
                                 Ok(())
                             }
                             unexpected => unexpected_type("Tuple with 2 elements", unexpected),
